@@ -50,7 +50,8 @@ KmOps(kt, slots) ==
   (IF 2 \in DOMAIN slots THEN {} ELSE {[op |-> "clone", s |-> 1, t |-> 2]}) \cup
   (IF cfg.back = "none" THEN {}
    ELSE {[op |-> "put", s |-> s, n |-> 2 + s] : s \in DOMAIN slots} \cup {[op |-> "get", s |-> s] : s \in DOMAIN slots})
-KmEnabled(e) == e.op = "obs" => (hist = <<>> \/ hist[Len(hist)].op # "obs")
+\* (IF, not \/: inside an action TLC explores both disjuncts)
+KmEnabled(e) == IF e.op # "obs" \/ hist = <<>> THEN TRUE ELSE hist[Len(hist)].op # "obs"
 KmSlots(kt, slots, e) ==
   CASE e.op = "set"   -> [slots EXCEPT ![e.s] = SetField(@, e.i, e.v)]
     [] e.op = "clone" -> FnWith(slots, e.t, slots[e.s])
@@ -95,7 +96,7 @@ ResOps ==
    [op |-> "cenc", e |-> "e1", as |-> "e1"], [op |-> "rese", e |-> "e1", c |-> "c1"], [op |-> "rese", e |-> "e1", c |-> "c3"],
    [op |-> "chain", r |-> "r1", e |-> "e1", p |-> "p1"],
    [op |-> "fb", r |-> "r1", p |-> "p1"], [op |-> "fb", r |-> "r1", p |-> "p3"], [op |-> "fb", r |-> "r2", p |-> "p1"],
-   [op |-> "fb", r |-> "rj", p |-> "p1"]}
+   [op |-> "fb", r |-> "rj", p |-> "p1"], [op |-> "fcfg", h |-> "abcd1234"], [op |-> "fcfg", h |-> "abc"]}
 ResCfgs == {[maxroots |-> m, urls |-> u] : m \in {100, 1}, u \in {0, 1}}
 
 Cfgs == CASE Family = "keymut" -> {BackCfg(kt, b) : kt \in KT, b \in Backs}
